@@ -4,6 +4,9 @@ package otlpmetrichttp
 
 import (
 	"context"
+	"time"
+
+	"go.opentelemetry.io/otel/sdk/metric/metricdata"
 
 	"google.golang.org/protobuf/proto"
 
@@ -17,20 +20,60 @@ const vCanStop = false
 
 type vUploader struct {
 	upload  func(context.Context) error
-	stop    func()
+	stop    func() error
 	payload []byte
 }
 
-func vNewUploader(gz bool, rc RetryConfig) *vUploader {
+// vTimeoutOpts: the client timeout dimension (d: option absent = default 10 s, p: 30 s, z: 0 = none)
+func vTimeoutOpts(to string) []Option {
+	switch to {
+	case "p":
+		return []Option{WithTimeout(30 * time.Second)}
+	case "z":
+		return []Option{WithTimeout(0)}
+	}
+	return nil
+}
+
+func vHost(host string) string {
+	if host == "" {
+		return "verif.invalid:4318"
+	}
+	return host
+}
+
+// vExporter: what the `shut` scenario drives.
+type vExporter struct {
+	export   func(context.Context) error
+	shutdown func(context.Context) error
+}
+
+func vNewClient(host string, gz bool, rc RetryConfig, to string) (*client, oconf.Config) {
 	comp := NoCompression
 	if gz {
 		comp = GzipCompression
 	}
-	cfg := oconf.NewHTTPConfig(asHTTPOptions([]Option{WithInsecure(), WithEndpoint("verif.invalid:4318"), WithRetry(rc), WithCompression(comp)})...)
+	cfg := oconf.NewHTTPConfig(asHTTPOptions(append([]Option{WithInsecure(), WithEndpoint(vHost(host)), WithRetry(rc), WithCompression(comp)}, vTimeoutOpts(to)...))...)
 	c, err := newClient(cfg)
 	if err != nil {
 		panic(err)
 	}
+	return c, cfg
+}
+
+// the package's Exporter (Export / Shutdown) over the client with the scripted transport
+func vNewExporter(host string, rc RetryConfig, to string) *vExporter {
+	c, cfg := vNewClient(host, false, rc, to)
+	e, err := newExporter(c, cfg)
+	if err != nil {
+		panic(err)
+	}
+	rm := &metricdata.ResourceMetrics{}
+	return &vExporter{export: func(ctx context.Context) error { return e.Export(ctx, rm) }, shutdown: e.Shutdown}
+}
+
+func vNewUploader(host string, gz bool, rc RetryConfig, to string) *vUploader {
+	c, _ := vNewClient(host, gz, rc, to)
 	rm := &metricpb.ResourceMetrics{ScopeMetrics: []*metricpb.ScopeMetrics{{Metrics: []*metricpb.Metric{{
 		Name: "verif-c14", Data: &metricpb.Metric_Gauge{Gauge: &metricpb.Gauge{DataPoints: []*metricpb.NumberDataPoint{{
 			TimeUnixNano: 2, Value: &metricpb.NumberDataPoint_AsInt{AsInt: 7}}}}}}}}}}
@@ -40,7 +83,7 @@ func vNewUploader(gz bool, rc RetryConfig) *vUploader {
 	}
 	return &vUploader{
 		upload:  func(ctx context.Context) error { return c.UploadMetrics(ctx, rm) },
-		stop:    func() {},
+		stop:    func() error { return nil },
 		payload: payload,
 	}
 }
